@@ -16,14 +16,19 @@ import re
 
 import vf
 
-RULE = ("MC: McpGateMC, all rows of the gating table as initial states, invariants over the table (role monotone, flag off "
-        "never allows, list consistent with call, mutating needs principal, actor mismatch refused, default read-only); "
-        "GEN: the complete table (35 names x 3 roles x 4 flag combinations x 2 x 3 = 2520 rows) plus 708 argument-shape rows "
-        "printed by TLC; each row executed on a real mcp.Server over stdio JSON-RPC in a private scratch environment; TV: "
-        "every call validated by TLC against McpGate.tla (class, tools/list before and after, no effect when refused, exactly "
-        "one audit record with the seven fields per mutating call, config-file / pid-file confinement); COV: TLC decides "
-        "non-vacuity. exhaustive = the complete gating table; the thorough tier adds seeded random argument shapes (sampled). "
-        "traces_validated_against_impl = calls executed and validated.")
+RULE = ("MC: McpGateMC, every row of the gating table and every argument-shape row as an initial state, invariants over the "
+        "table (role monotone, flag off never allows, tools/list consistent with tools/call, mutating needs principal, actor "
+        "mismatch refused, default read-only, families as documented: 31 tools = 14 read + 11 operate + 6 admin); GEN: TLC prints "
+        "the complete table (35 names x 3 roles x 4 flag combinations x principal present/absent x actor absent/equal/different "
+        "= 2520 rows) plus the argument-shape rows (foreign / ../ / symlinked paths and pid files, unknown keys, wrong types, "
+        "actor variants, config content that does not parse / compile, write modes, malformed arguments member, Admin-proxy "
+        "backend) under four server configurations; EXEC: each row on a real mcp.Server over stdio JSON-RPC (L1, in-process, "
+        "wired as internal/app/mcp.go) and on the real binary `hookaido mcp serve` (L2) in a private scratch environment; TV: "
+        "every call validated by TLC against McpGate.tla - class, tools/list before and after, no effect on config file / queue "
+        "database / forwarded Admin requests / processes when refused, exactly one audit record with the seven fields per "
+        "mutating call, confinement to the configured config path and pid file, every intermediate content of the config file "
+        "compiles; COV: TLC decides non-vacuity. exhaustive = the complete gating table; the thorough tier adds seeded random "
+        "argument shapes (sampled). traces_validated_against_impl = calls executed and validated.")
 
 UNKNOWN = {"no_such_tool", "CONFIG_APPLY", "instance_restart", ""}
 INVARIANTS = ["TypeOK", "MonotoneRole", "MonotoneFlags", "FlagOffDenies", "MutatingNeedsPrincipal", "ActorMismatchRefused",
@@ -37,29 +42,30 @@ def unq(s):
     return json.loads(json.loads('"' + s + '"'))
 
 
-def model_check(ctx):
-    r = vf.mc_run(ctx, "table", "McpGateMC", {"UnknownNames": UNKNOWN}, {}, invariants=INVARIANTS, timeout=300, heap="2g")
+def mc_and_gen(ctx):
+    """MC (invariants over the table) and GEN (rows as JSON) are independent TLC runs over the same initial states."""
+    consts = {"UnknownNames": UNKNOWN}
+    with cf.ThreadPoolExecutor(max_workers=2) as ex:
+        f_mc = ex.submit(vf.mc_run, ctx, "table", "McpGateMC", consts, {}, invariants=INVARIANTS, timeout=300, heap="2g",
+                         workers=max(1, vf.NCPU // 2))
+        f_gen = ex.submit(vf.mc_run, ctx, "gen", "McpGateGen", consts, {}, invariants=["Emit"], timeout=300, heap="2g", workers=1)
+        r, g = f_mc.result(), f_gen.result()
     vf.mc_expect_ok(ctx, r, "McpGateMC")
-    return r
-
-
-def generate(ctx):
-    r = vf.mc_run(ctx, "gen", "McpGateGen", {"UnknownNames": UNKNOWN}, {}, invariants=["Emit"], timeout=300, heap="2g", workers=1)
-    if not r["ok"] or r["error"] or r["violated"]:
-        raise vf.Infra("McpGateGen failed: %s\n%s" % (r["error"] or r["violated"], "\n".join(r["out"].splitlines()[-30:])))
+    if not g["ok"] or g["error"] or g["violated"]:
+        raise vf.Infra("McpGateGen failed: %s\n%s" % (g["error"] or g["violated"], "\n".join(g["out"].splitlines()[-30:])))
     rows = []
-    for line in r["out"].splitlines():
+    for line in g["out"].splitlines():
         m = RE_ROW.match(line.strip())
         if m:
             rows.append(unq(m.group(1)))
-    if len(rows) != r["distinct"] or not rows:
-        raise vf.Infra("McpGateGen printed %d rows for %d states" % (len(rows), r["distinct"]))
+    if len(rows) != g["distinct"] or not rows or g["distinct"] != r["distinct"]:
+        raise vf.Infra("McpGateGen printed %d rows for %d states (MC: %d)" % (len(rows), g["distinct"], r["distinct"]))
     rows.sort(key=lambda x: json.dumps(x, sort_keys=True))
     for i, row in enumerate(rows):
         row["id"] = "t-%05d" % i
-    ctx.cov["mc_runs"].append({"name": "gen", "distinct": r["distinct"], "generated": r["generated"], "rows": len(rows), "secs": r["secs"]})
-    ctx.cov["states"] += r["distinct"]
-    ctx.cov["transitions"] += r["generated"]
+    ctx.cov["mc_runs"].append({"name": "gen", "distinct": g["distinct"], "generated": g["generated"], "rows": len(rows), "secs": g["secs"]})
+    ctx.cov["states"] += g["distinct"]
+    ctx.cov["transitions"] += g["generated"]
     return rows
 
 
@@ -139,10 +145,10 @@ def describe(check, e):
     au = ", ".join(a["result"] for a in e["audits"]) or "none"
     return ("[%s] check '%s' failed: tool=%r role=%s enable-mutations=%s enable-runtime-control=%s principal=%s actor=%s shape=%s; "
             "observed %s (isError=%s rpc_error=%s) audit=[%s] listed=%d tools effect=%s cfg_changed=%s db_changed=%s spawned=%s "
-            "foreign_changed=%s args=%s" % (
+            "foreign_changed=%s admin_posts=%s args=%s" % (
                 e.get("layer", "L1"), check, r["tool"], r["role"], r["mut"], r["rc"], r["principal"], r["actor"], r["shape"], e["obs"], e["is_error"],
                 e["rpc_error"], au, len(e["listed"]), e["effect"], e["cfg_after"] != e["cfg_before"], e["db_after"] != e["db_before"],
-                e["spawned"], e["foreign_changed"], e["args_json"][:300]))
+                e["spawned"], e["foreign_changed"], e.get("admin_posts", 0), e["args_json"][:300]))
 
 
 def collect_fails(res):
@@ -237,6 +243,8 @@ def coverage(ctx, files, expect_random):
         raise vf.Infra("expected %d random rows in the trace, found %d" % (expect_random, stats["random"]))
     if expect_random and (stats["refused_random"] < expect_random // 10 or stats["ok_random"] < expect_random // 20):
         raise vf.Infra("random argument shapes are one-sided: %s" % json.dumps(stats))
+    ctx.cov["mc_runs"].append({"name": "cov", "distinct": r["distinct"], "generated": r["generated"], "events": sum(
+        stats[k] for k in ("table", "shapes", "random")), "secs": r["secs"]})
     c = ctx.cov["counters"]
     c["rows_table"], c["rows_shapes"], c["rows_random"] = stats["table"], stats["shapes"], stats["random"]
     c["random_refused"], c["random_ok"] = stats["refused_random"], stats["ok_random"]
@@ -283,10 +291,7 @@ def run(ctx):
 
     vf.build_tool(TOOL)
     mark("build")
-    with cf.ThreadPoolExecutor(max_workers=2) as ex:     # MC and GEN are independent TLC runs
-        f_mc, f_gen = ex.submit(model_check, ctx), ex.submit(generate, ctx)
-        f_mc.result()
-        rows = f_gen.result()
+    rows = mc_and_gen(ctx)
     mark("mc+gen")
     nrandom = 0
     if not ctx.quick:
@@ -331,8 +336,11 @@ def run(ctx):
     ctx.assumptions += [
         "L1: the server is constructed in-process with the option list of internal/app/mcp.go; L2: the real binary `hookaido mcp serve` "
         "(intermediate contents of the config file are observed at L1 only, through the write hook)",
-        "queue backend sqlite (direct mode); Admin-proxy mode (memory/postgres backends) is not exercised",
+        "queue backend sqlite (direct mode) for the table; Admin-proxy mode (queue backend memory) for the queue tools against a fake "
+        "Admin API that accepts everything (an effect on the queue is then a forwarded request); no PostgreSQL",
         "`hookaido run` is replaced by a stub binary; the admin health endpoint is a fake HTTP server",
+        "a tools/call whose `arguments` member is not a JSON object is rejected by the JSON-RPC layer before the tool is looked up; "
+        "it must be refused without effect, but an audit record is not demanded for it (at most one)",
         "'parses and compiles' is decided by the repository's own config.Parse / config.Compile",
         "the input hash is checked to be a function of the arguments and injective on the inputs tried, not against a particular algorithm",
     ]
